@@ -42,14 +42,23 @@ theorem blockRemove_regenerated (h : Gen.Code.blockRemove_extracted = true) (b :
     | exact absurd h (by decide)
     | (unfold Gen.Code.blockRemove Go.sliceTo Go.sliceFrom
        go_norm
+       -- the guard is decided on both sides in every polarity (`pos >= 0 && len > pos`, `pos < 0 || len <= pos`, nested)
        by_cases hp : 0 ≤ pos ∧ pos.toNat < b.lines.length
        · have e1 : (pos + 1).toNat = pos.toNat + 1 := by omega
-         have c1 : pos ≥ 0 ∧ (b.lines.length : Int) > pos := by omega
-         have c2 : 0 ≤ pos ∧ pos.toNat ≤ b.lines.length := by omega
+         have g1 : 0 ≤ pos := by omega
+         have g2 : pos < (b.lines.length : Int) := by omega
+         have g3 : ¬ pos < 0 := by omega
+         have g4 : ¬ (b.lines.length : Int) ≤ pos := by omega
+         have c2 : pos.toNat ≤ b.lines.length := by omega
          have c3 : 0 ≤ pos + 1 ∧ (pos + 1).toNat ≤ b.lines.length := by omega
          have c4 : pos.toNat + 1 ≤ b.lines.length := by omega
-         simp only [hp, c1, c2, c3, c4, and_self, if_true, pure_bind, e1, List.eraseIdx_eq_take_drop_succ]
-       · have c1 : ¬ (pos ≥ 0 ∧ (b.lines.length : Int) > pos) := by omega
-         simp only [hp, c1, if_false])
+         go_guards [hp, g1, g2, g3, g4, c2, c3, c4, and_self, e1, List.eraseIdx_eq_take_drop_succ]
+       · rcases (by omega : pos < 0 ∨ (0 ≤ pos ∧ (b.lines.length : Int) ≤ pos)) with g1 | ⟨g1, g2⟩
+         · have g3 : ¬ 0 ≤ pos := by omega
+           go_guards [hp, g1, g3]
+         · have g3 : ¬ pos < 0 := by omega
+           have g4 : ¬ pos < (b.lines.length : Int) := by omega
+           have g5 : ¬ pos.toNat < b.lines.length := by omega
+           go_guards [hp, g1, g2, g3, g4, g5])
 
 end RosedVerif.GenCodeEq
